@@ -11,8 +11,8 @@ DEC_ASSUMPTIONS = [
     "acceptance languages of int(s, 10), real_cls(str), datetime.strptime per format family and re.fullmatch are "
     "uninterpreted predicates of the token text in these VCs (their languages: regex back end / bounded drivers)",
     "for_try_except(exc, f, *iterables): assumed contract (first successful application, else the exception class)",
-    "ODLDecoder.is_identifier, Token.is_space/is_WSC/is_comment, OmniDecoder.decode_datetime (dateutil import inside the "
-    "body): not under contract - bounded only",
+    "Token.is_space/is_WSC, OmniDecoder.decode_datetime (dateutil import inside the body): not under contract - bounded only; "
+    "ODLDecoder.is_identifier is an assumed signature in T_dec and discharged as a functional contract in T_enc (token-predicate-contracts)",
     "grammar tables (comments, whitespace, reserved characters, keywords) are arbitrary finite collections of strings",
 ]
 
@@ -194,6 +194,8 @@ def token_sections(ctx, pid):
     t0 = time.time()
     s_contracts = ce.token_contracts()
     verify_contracts(s, s_contracts, EncTheory, ["pvl.token"], jobs=ctx.jobs)
+    # ODLDecoder.is_identifier (a character loop): assumed in T_dec, discharged here with the search-loop rule over the characters
+    verify_contracts(s, ce.identifier_contracts(), EncTheory, ["pvl.decoder"], jobs=1)
     s.assumptions += [ENC_ASSUMPTIONS[0], ENC_ASSUMPTIONS[3],
                       "decoder.decode_X(token) returns or raises ValueError as decided by one uninterpreted predicate per method "
                       "(which exceptions can leave a decoder method: T_dec); Token.is_space / is_WSC / __index__ / __float__ are not under contract"]
@@ -275,6 +277,9 @@ def sections_for(pid, ctx):
     if pid in ("C17", "C03", "C14"):
         from . import regexsec
         out += regexsec.sections_for(pid, ctx)
+    if pid in ("C01", "C02", "C07"):
+        from . import regexsec
+        out.append(regexsec.substitution_section(pid))
     return out
 
 
